@@ -157,15 +157,15 @@ Section Sim.
   Proof.
     intros H Hr. unfold Paged.store. rewrite (Hbits x c Hr).
     destruct (negb (v_bits W2 c mod 8 =? 0) || (v_bits W2 c =? 0)); [constructor|].
-    apply Rres_bind_same. intros after.
+    destruct (USIZE <? a + v_bits W2 c / 8); [constructor|].
     eapply Rres_bind.
     - instantiate (1 := Ropt R).
-      destruct (sim_load_cell m1 m2 after H) as [c1 c2 Hc|]; [|constructor; constructor].
+      destruct (a + v_bits W2 c / 8 =? USIZE); [constructor; constructor|].
+      destruct (sim_load_cell m1 m2 (a + v_bits W2 c / 8) H) as [c1 c2 Hc|]; [|constructor; constructor].
       destruct Hc as [y d Hy|b]; [constructor; constructor|].
       destruct (sim_load_cell m1 m2 b H) as [d1 d2 Hd|]; [|constructor].
       destruct Hd as [y d Hy|b2]; [|constructor].
-      rewrite (Hbits y d Hy). apply Rres_bind_same. intros far. apply Rres_bind_same. intros dd.
-      apply Rres_bind_same. intros lb. apply sim_load, H.
+      rewrite (Hbits y d Hy). apply Rres_bind_same. intros dd. apply sim_load, H.
     - intros vtw1 vtw2 Hvtw. eapply Rres_bind.
       + instantiate (1 := Rmem). destruct Hvtw as [w1 w2 Hw|]; [apply sim_snb; assumption|constructor; exact H].
       + intros m1' m2' H'. eapply Rres_bind.
@@ -177,7 +177,7 @@ Section Sim.
           -- intros d1 d2 Hd. eapply Rres_bind.
              ++ instantiate (1 := R). destruct Hd; constructor; assumption.
              ++ intros bv1 bv2 Hbv. rewrite (Hbits bv1 bv2 Hbv).
-                apply Rres_bind_same. intros far. apply Rres_bind_same. intros dd. apply Rres_bind_same. intros ob.
+                apply Rres_bind_same. intros dd.
                 apply Rres_bind_same. intros lb. eapply Rres_bind; [apply sim_load, H'|].
                 intros r1 r2 Hrr. constructor. constructor. split; [reflexivity|exact Hrr].
         * intros v1 v2 Hv. eapply Rres_bind.
